@@ -383,13 +383,17 @@ int main(int argc, char** argv)
       Opts f = o;
       f.heap = a.getu("heap", 0) != 0;
       f.groupMask = (unsigned)a.getu("groupmask", 1 | 2);
+      // stride > 1: every stride-th block, starting at (seed % stride) - a 1/stride sample of the value space
+      const uint64_t stride = a.getu("stride", 1);
+      const uint64_t offset = stride > 1 ? a.seed % stride : 0;
       for (uint64_t i = a.start; i < end; ++i)
       {
          out.curIdx = i;
-         snprintf(d, sizeof d, "full32 block=%" PRIu64 " (values min+%" PRIu64 "*65536 ..)", i, i);
+         const uint64_t blk = i * stride + offset;
+         snprintf(d, sizeof d, "full32 block=%" PRIu64 " (values min+%" PRIu64 "*65536 ..)", blk, blk);
          prog.set(i, d);
-         sweep<int32_t>(i << 16, 65536, f, 64);
-         sweep<uint32_t>(i << 16, 65536, f, 64);
+         sweep<int32_t>(blk << 16, 65536, f, 64);
+         sweep<uint32_t>(blk << 16, 65536, f, 64);
          out.stat("cases");
          out.stat("distinct_exact", 2 * 65536);
       }
